@@ -146,6 +146,14 @@ let c_case = function
         c_st1 = c_list c_state st1; c_warn = c_str warn }
   | _ -> fail_sx "case"
 
+let c_dcase = function
+  | C ("mkDCase", [base; ran; err; writer; help]) ->
+      { d_base = c_case base;
+        d_ran = c_list (function C ("R3", [id; args; view]) -> ((c_nat id, c_list c_str args), c_list (c_pair c_str c_state) view) | _ -> fail_sx "ran") ran;
+        d_err = c_opt (function C ("D3", [m; h; p]) -> ((c_str m, c_bool h), c_bool p) | _ -> fail_sx "derr") err;
+        d_writer = c_str writer; d_help = c_str help }
+  | _ -> fail_sx "dcase"
+
 (* ---- printing (for replays) ---- *)
 
 let show_str (s : str) : string =
@@ -196,6 +204,23 @@ let show_view (c : pcase) : string =
     (match err with None -> "none" | Some ((k, m), p) -> Printf.sprintf "(%s %s parsing=%b)" (show_ekind k) (show_str m) p)
     (show_list show_str rem) (show_list show_state st)
 
+let show_dview (c : dcase) : string =
+  match run_dcase c with
+  | None -> "model{parse failed: " ^ show_view c.d_base ^ "}"
+  | Some (r, h) ->
+      let rs = match r with
+        | DRan (id, args, view) -> Printf.sprintf "ran fn=%d args=%s view=%s" (int_of_nat id) (show_list show_str args)
+                                     (show_list (fun (k, o) -> show_str k ^ ":" ^ show_state o) view)
+        | DHelp t -> "help-called writer=" ^ show_str t
+        | DRootHelp t -> "root-help writer=" ^ show_str t
+        | DErr e -> Printf.sprintf "error %s %s parsing=%b" (show_ekind e.e_kind) (show_str e.e_msg) e.e_parsing in
+      Printf.sprintf "model{%s | Help()=%s | %s}" rs (show_str h) (show_view c.d_base)
+
+let dmask_of_string (s : string) : dmask =
+  (* six characters: f(unction) a(rgs) v(iew) e(rror) w(riter) h(elp text) *)
+  let g i = String.length s > i && s.[i] = '1' in
+  { dm_fn = g 0; dm_args = g 1; dm_view = g 2; dm_err = g 3; dm_writer = g 4; dm_help = g 5 }
+
 let mask_of_string (s : string) : mask =
   (* seven characters: e(rror presence/class/kind) p(ayload = format arguments) m(essage text)
      r(emaining) v(alues) c(alled) w(riter), '1' = compare *)
@@ -205,6 +230,7 @@ let mask_of_string (s : string) : mask =
 let () =
   let mask = if Array.length Sys.argv > 1 then mask_of_string Sys.argv.(1) else mask_all in
   let ic = if Array.length Sys.argv > 2 then open_in Sys.argv.(2) else stdin in
+  let dmask = if Array.length Sys.argv > 3 then dmask_of_string Sys.argv.(3) else dmask_all in
   let i = ref 0 and bad = ref 0 in
   (try
      while true do
@@ -215,6 +241,10 @@ let () =
               let c = c_case sx in
               if check_case mask c then ()
               else begin incr bad; Printf.printf "MISMATCH %d %s\n" !i (show_view c) end
+          | C ("mkDCase", _) as sx ->
+              let c = c_dcase sx in
+              if check_dcase mask dmask c then ()
+              else begin incr bad; Printf.printf "MISMATCH %d %s\n" !i (show_dview c) end
           | C ("mkTCase", [md; str; pairs; is]) ->
               let c = { t_md = c_mode md; t_s = c_str str; t_pairs = c_list (c_pair c_str (c_list c_str)) pairs; t_is = c_bool is } in
               if check_tcase c then ()
